@@ -37,6 +37,18 @@ def full_qr(r, can, tps, base):
     return q
 
 
+def sparse_qr(r, q, bp):
+    """a record made only of fields that bp's hints exclude (nothing of it may reach the file, not even an empty item),
+    sometimes with one enabled field added; never the members that have no hint bit"""
+    fields = [f for f in q if f not in model.ALWAYS]
+    excl = [f for f in fields if not model.filter_qr({f: q[f]}, bp)]
+    incl = [f for f in fields if f not in excl]
+    keep = r.sample(excl, r.randrange(1, len(excl) + 1)) if excl else []
+    if incl and (not keep or r.random() < 0.4):
+        keep.append(r.choice(incl))
+    return {f: q[f] for f in keep}
+
+
 def masks(tier, r, i):
     """hint masks: every single bit cleared / alone at least once, then random"""
     singles = []
@@ -75,11 +87,28 @@ def make_cases(tier, seed):
         for k in range(r.choice([2, 4, 8])):
             x = r.random()
             if x < 0.6:
-                c['ops'].append({'op': 'qr', 'r': full_qr(r, can, 1000, base)})
+                q = full_qr(r, can, 1000, base)
+                if r.random() < 0.35:
+                    q = sparse_qr(r, q, bps[0])
+                c['ops'].append({'op': 'qr', 'r': q})
             elif x < 0.75:
                 c['ops'].append({'op': 'aec', 'r': {'t': r.randrange(6), 'code': r.randrange(256), 'tf': r.randrange(64), 'ip': can.make(16)}})
             elif x < 0.9:
                 c['ops'].append({'op': 'mm', 'r': {'ts': gen.gen_ts(r, 1000, base), 'cip': can.make(16), 'cport': 99, 'sip': can.make(16), 'sport': 53, 'tf': 2, 'pl': can.make(30)}})
+            elif x < 0.94:
+                # a block the application configures itself (constructed, or moved / copied into place while still empty) and fills
+                # through the generic, hint-applying add calls
+                bi = r.randrange(nb)
+                items = [{'k': 'qr', 'r': full_qr(r, can, 1000, base)} for _ in range(r.choice([1, 2]))]
+                if r.random() < 0.5:
+                    items.append({'k': 'mm', 'r': {'ts': gen.gen_ts(r, 1000, base), 'cip': can.make(16), 'cport': 7, 'pl': can.make(20)}})
+                if r.random() < 0.5:
+                    items.append({'k': 'aec', 'r': {'t': r.randrange(6), 'code': r.randrange(256), 'tf': r.randrange(64), 'ip': can.make(16)}})
+                op = {'op': 'dblock', 'bp': bi, 'items': items}
+                how = r.choice(['direct', 'movector', 'moveassign', 'copyctor', 'copyassign'])
+                if how != 'direct':
+                    op['how'] = how
+                c['ops'].append(op)
             elif nb > 1:
                 c['ops'].append({'op': 'setactive', 'idx': r.randrange(nb)})
                 c['ops'].append({'op': 'wb'})
@@ -103,14 +132,14 @@ def disabled_values(case):
         qrh, sigh, rrh, oth = bp['qrh'], bp['sigh'], bp['rrh'], bp['oth']
         if op['op'] == 'qr':
             q = op['r']
-            if not qrh >> 1 & 1: out.append(('qr.cip', q['cip'], 1))
-            if not (qrh >> 4 & 1 and sigh >> 0 & 1): out.append(('sig.sip', q['sip'], 100))
-            if not (qrh >> 4 & 1 and sigh >> 15 & 1): out.append(('sig.optrd', q['optrd'], 115))
-            if not qrh >> 7 & 1: out.append(('qr.qname', q['qname'], 7))
-            if not qrh >> 10 & 1: out.append(('rpd.bail', q['bail'], 10))
+            if 'cip' in q and not qrh >> 1 & 1: out.append(('qr.cip', q['cip'], 1))
+            if 'sip' in q and not (qrh >> 4 & 1 and sigh >> 0 & 1): out.append(('sig.sip', q['sip'], 100))
+            if 'optrd' in q and not (qrh >> 4 & 1 and sigh >> 15 & 1): out.append(('sig.optrd', q['optrd'], 115))
+            if 'qname' in q and not qrh >> 7 & 1: out.append(('qr.qname', q['qname'], 7))
+            if 'bail' in q and not qrh >> 10 & 1: out.append(('rpd.bail', q['bail'], 10))
             for s, bit in model.SECTION_BITS.items():
                 on = qrh >> bit & 1
-                for rr in q[s]:
+                for rr in q.get(s, []):
                     if not on:
                         out.append((s + '.name', rr['n'], bit))
                         if 'rd' in rr: out.append((s + '.rdata', rr['rd'], bit))
@@ -164,6 +193,6 @@ def run(tier, seed):
         if len(bits_cleared) < 39:
             inc = 'only %d of 39 hint bits were observed cleared' % len(bits_cleared)
         return dict(violations=vs, coverage=cov, inconclusive=inc,
-                    assumptions=['generic buffer_* API only: blocks built directly by the application bypass hints by documented design'])
+                    assumptions=['hint-applying (generic) calls only, on the exporter and on blocks the application configures itself; the low-level add_* calls taking ready-made items bypass hints by documented design'])
     finally:
         er.close()
